@@ -30,7 +30,7 @@ claimed = {
     "C03": ("Theorems: through every handle-taking access path of the Storage API (get, get_mut, contains, insert, remove, "
             "entry, get_mut_or_default) a handle that is not alive yields the absent outcome and leaves the storage equal, "
             "for every storage kind, wrapper and mask content; a dead handle stays dead in every accepted continuation; "
-            "Tie: stale-handle probe matrices (index reused 0..n times, merged or not) over all 16 storages, every path, "
+            "Tie: stale-handle probe matrices (index reused 0..n times, merged or not) over all 18 storage ids (five kinds x plain / Flagged / DerefFlagged, the null storage also under both wrappers), every path, "
             "occupant read before and after; a rejection by the plain-map specification at an access through a handle the "
             "specification knows to be dead is the violation; the join paths are covered too: the lending join's lookup by "
             "entity and the restricted items' get_other / get_other_mut are run with dead and stale (reused index) handles "
@@ -42,7 +42,7 @@ claimed = {
             "bijection), every Storage-API operation gives equal results on any two representations of the same map and "
             "keeps them related, whole histories on real kinds and on plain maps give equal outputs, and no step is stuck "
             "when components are registered before use. Tie: exact transcript equality (including dense slice order, drop "
-            "order, events) between the real World and the extracted faithful model on all 16 storages.", "5.C04"),
+            "order, events) between the real World and the extracted faithful model on all 18 storage ids.", "5.C04"),
     "C05": ("Theorems: on the specification machine, for every accepted history in which components are registered before "
             "use, every storage resource is listed in the MetaTable and every index in any storage's mask belongs to an entity "
             "that is alive or awaiting maintain (invariant proved through all creation, deletion, maintain and storage "
@@ -50,7 +50,7 @@ claimed = {
             "component in any storage; delete_components removes the deleted entities' components from every storage known "
             "to the world and leaves every other entity's component unchanged. Tie: histories of creations with components, "
             "insertions, every deletion path (immediate, deferred, batches with a failing element, delete_all, dropped "
-            "builders), 1-16 storages made known by all four paths (some after entities exist), with every storage observed "
+            "builders), 1-18 storage ids made known by all four paths (some after entities exist), with every storage observed "
             "after every deletion and after the creations that follow; a rejection by the plain-map specification at an "
             "observation, or a difference in the values destroyed by a deletion, is the violation.", "5.C05"),
     "C09": ("Theorems about the literal model of the lazy queue (push; pop-until-empty loop with explicit fuel): the queued "
@@ -140,7 +140,7 @@ claimed["C06"] = (
     "lifecycle specification give the same join, so joins are covered by the refinement theorems of C01/C02. Tie: tuples "
     "of 1-8 type-erased members run through the real macro-generated tuple impls, BitAnd tree, JoinIter / JoinLendIter / "
     "MaybeJoin / AntiStorage / Drain / RestrictedStorage / ChangeSet impls and hibitset iteration over sparse masks "
-    "straddling 64 / 4096 / 262144, on all 16 storages, interleaved with direct operations; items, events, destroyed "
+    "straddling 64 / 4096 / 262144, on all 18 storage ids, interleaved with direct operations; items, events, destroyed "
     "values and the storage contents afterwards must equal the specification's. Further theorems: the join on real "
     "storages of any kind refines the join on the plain maps they represent (same items, related final states); on those "
     "maps every storage member hands out, for every visited index, the value a direct lookup returns, a mutation through "
@@ -170,7 +170,7 @@ claimed["C13"] = (
     "looking up another entity answers exactly for handles that are alive and whose index is in the mask, and neither it "
     "nor anything else done through an item changes any storage's membership; every storage kind behaves as the plain "
     "map. Tie: restrict() / restrict_mut() / shared reference to restrict_mut() joined sequentially, lending and in "
-    "parallel on all 16 storages; per item get, get_mut on a caller-chosen subset (i mod m = r), get_other / "
+    "parallel on all 18 storage ids; per item get, get_mut on a caller-chosen subset (i mod m = r), get_other / "
     "get_other_mut of live, dead, stale (reused index) and component-less handles; readers on the tracked storages "
     "observe the events; all compared with the specification. Further theorems (on the maps, via the refinement): of the "
     "visited cells exactly those the caller chose to fetch mutably change, every other cell keeps its value; read-only "
@@ -200,7 +200,7 @@ claimed["C08"] = (
     "slots named by the mask, once each, in mask order, and marks them moved-out, the map kinds destroy every value once, "
     "the null storage materialises one unit per member; values queued lazily are stored or destroyed by the same "
     "generation-checked operation. Tie and whole-history ledger: the harness records every value constructed, handed "
-    "back and destroyed (and every look at a value that is already gone); on every explored history (all 16 storages, "
+    "back and destroyed (and every look at a value that is already gone); on every explored history (all 18 storage ids, "
     "every insertion / removal / drain / entry / clear / deletion / maintain / lazy / join-with-drain path, ending with "
     "the world dropped) constructed = handed back + destroyed as multisets, nothing is looked at after it is gone, and "
     "the values destroyed by each operation equal the specification's. The ledger equation itself is proved operation by "
@@ -235,7 +235,7 @@ claimed["C19"] = (
     "destruction ledger never holds a real value twice, no lookup, join, slice view or handed-back value carries a "
     "destroyed value, nothing is stuck, and the invariant holds after every history (the world stays usable); a faulting "
     "delete / maintain leaves the allocator exactly as the non-faulting one and only removes components of the deleted "
-    "entities; the same for ChangeSet add / clear. Tie: the real code runs every destroying operation on all 16 storages "
+    "entities; the same for ChangeSet add / clear. Tie: the real code runs every destroying operation on all 18 storage ids "
     "with the fault position swept over every destructor call (and beyond), followed by observations, churn, a second "
     "faulting operation and teardown; destruction order, panic point and every observation must equal the extracted "
     "model's, and independently of the model the ledger must hold no value twice, no observation may show a destroyed "
